@@ -257,6 +257,8 @@ def g_distributions(rng):
                                                                                                   "x": P("mvn.tril.unres", rng.normal(0, 0.3, d * (d + 1) // 2).tolist())}}},
             {"id": "detn", "type": "DeterministicNormal", "x": "x", "loc": P("detn.loc", rng.normal(0, 0.3, d).tolist()), "scale": P("detn.scale", np.exp(rng.normal(0, 0.2, d)).tolist()), "shape": []},
             {"id": "bridge", "type": "BayesianBridge", "x": "x", "scale": P("bb.scale", [1.2]), "alpha": P("bb.alpha", [0.7])},
+            # regularised bridge (local scales and a slab)
+            {"id": "bridge.reg", "type": "BayesianBridge", "x": "x", "scale": P("bbr.scale", [0.9]), "local_scale": P("bbr.local", np.exp(rng.normal(0, 0.3, d)).tolist()), "slab": P("bbr.slab", [2.0])},
             {"id": "mixture", "type": "ScaleMixtureNormal", "x": "x", "loc": 0.0, "global_scale": P("sm.global", [0.9]), "local_scale": P("sm.local", np.exp(rng.normal(0, 0.3, d)).tolist())},
             {"id": "gmrfcov", "type": "GMRFCovariate", "field": "x", "precision": P("gc.prec", [1.1]), "covariates": rng.normal(0, 1, (d, 2)).round(3).tolist(), "beta": P("gc.beta", [0.3, -0.2])},
             # an L1 penalty and two things that depend on its variable without being part of it
@@ -266,10 +268,10 @@ def g_distributions(rng):
             {"id": "inner", "type": "JointDistributionModel", "distributions": ["d.normal", "d.lognormal", "y.log"]},
             {"id": "joint", "type": "JointDistributionModel", "distributions": ["inner", "d.gamma", "d.head", "d.rev", "d.xy", "d.affine", "mvn", "bridge", "mixture", "x.affine", "x.cumsumexp"]}]
     return {"name": "distributions", "spec": spec,
-            "evals": ["d.normal", "d.lognormal", "d.gamma", "d.head", "d.rev", "d.xy", "d.affine", "d.convex", "d.cse", "d.oneonx", "mvn", "detn", "bridge", "mixture", "gmrfcov", "lasso", "d.obs", "inner", "joint"],
+            "evals": ["d.normal", "d.lognormal", "d.gamma", "d.head", "d.rev", "d.xy", "d.affine", "d.convex", "d.cse", "d.oneonx", "mvn", "detn", "bridge", "bridge.reg", "mixture", "gmrfcov", "lasso", "d.obs", "inner", "joint"],
             "leaves": {"beta": "real", "obs.y": "real", "x": "real", "y": "positive", "aff.loc": "real", "conv.w": "simplex", "n.loc": "real", "n.prec": "positive", "ln.mean": "positive", "ln.scale": "positive",
                        "g.conc": "positive", "g.rate": "positive", "rev.loc": "real", "xy.scale": "positive", "mvn.loc": "real", "mvn.tril.unres": "real", "detn.loc": "real", "detn.scale": "positive",
-                       "bb.scale": "positive", "bb.alpha": "unit", "sm.global": "positive", "sm.local": "positive", "gc.prec": "positive", "gc.beta": "real"},
+                       "bb.scale": "positive", "bb.alpha": "unit", "bbr.scale": "positive", "bbr.local": "positive", "bbr.slab": "positive", "sm.global": "positive", "sm.local": "positive", "gc.prec": "positive", "gc.beta": "real"},
             "derived": ["x.first", "x.head", "x.rev", "xy", "y.log", "ylog.first", "x.affine", "y.convex", "x.cumsumexp", "mvn.tril", "beta.exp"], "tensors": {}}
 
 
